@@ -64,6 +64,7 @@ type RunConfig struct {
 	PSFirst     int            `json:"ps_first_pct,omitempty"` // when both netlink clients wait: chance (percent) that the periodic one is served first (0 = 50)
 	CoLoc       bool           `json:"coloc,omitempty"`     // SMF 1 sends from SMF 0's IP address, another port
 	Startup     *StartupPlan   `json:"startup,omitempty"` // C20: the whole input of a start-up simulation
+	MidFwd      bool           `json:"mid_fwd,omitempty"` // notifications are handed to the server while the event loop is inside a turn
 	EarlyStop   bool           `json:"early_stop,omitempty"` // C17: the stop request arrives while the PFCP server is still starting
 	LogYield    int            `json:"log_yield_pct,omitempty"` // percent of go-upf's log statements that park their goroutine for a few ns (needs a debug/trace log level)
 	FreePlan    bool           `json:"free_plan,omitempty"` // lock-step phase of a free-running seed: the workload favours periodic URRs
@@ -152,6 +153,8 @@ type Sim struct {
 
 	hbSeq               uint32
 	armed               []KRepItem
+	armedK              *KBufIntent
+	inMidFwd            bool
 	armedAns            *Action
 	armedStop           int
 	closeDone, waitDone chan struct{}
@@ -430,6 +433,31 @@ func (s *Sim) settle() {
 				s.doKRepNoSettle(items)
 				synctest.Wait()
 			}
+			if s.armedK != nil && r.Conn == "main" && (r.Op == "del" || r.Op == "add-create" || r.Op == "add-update") {
+				// ... or a burst of buffered-packet notifications
+				k := s.armedK
+				s.armedK = nil
+				s.fired("dp.burst.buffer", 1)
+				seid, _ := s.resolveSEID(k.SMF, k.Slot, k.SEID)
+				for i := 0; i < max(1, k.Count); i++ {
+					tag := s.model.nextPktTag()
+					pkt := makePayload(tag, k.Len)
+					s.model.noteBufferEmitted(seid, k.PDR, k.Action, tag, pkt)
+					s.kern.emitBuffer(seid, k.PDR, k.Action, pkt)
+					s.logEvent("kbuf(mid-turn) seid=%#x pdr=%d act=%#x tag=%d len=%d", seid, k.PDR, k.Action, tag, len(pkt))
+					synctest.Wait()
+				}
+			}
+			if s.cfg.MidFwd && !s.tearing {
+				// the notifications reach the server now, while the event loop is still
+				// waiting for this reply: they pile up in its report queue
+				s.inMidFwd = true
+				for n := 0; s.cfg.Interpose && s.pendingReports() > 0 && n < 100; n++ {
+					s.probe("report.forwarded.mid-turn", 1)
+					s.forwardReport(0)
+				}
+				s.inMidFwd = false
+			}
 			// the clock moves (1 ns) before every data-plane answer, so that timers armed
 			// after different data-plane calls never share an instant
 			s.bump()
@@ -536,7 +564,13 @@ func (s *Sim) forwardReport(i int) {
 	}
 	s.bump()
 	s.logEvent("report fwd seid=%#x n=%d", sr.SEID, len(sr.Reports))
-	s.model.noteReportForwarded(sr)
+	if c := s.model.curCtx; s.inMidFwd && c != nil && c.Kind == "deliver" {
+		// handed over while the event loop is inside the turn of this step's message: it
+		// is served after that turn, so the model sees it after the message's effects
+		c.lateFwd = append(c.lateFwd, sr)
+	} else {
+		s.model.noteReportForwarded(sr)
+	}
 	// the producer is a goroutine of its own, as in production (netlink mux, periodic
 	// server): whatever it touches besides the report queue is unordered with the event
 	// loop's accesses, which is what the race detector must be able to see
